@@ -86,3 +86,20 @@ package snappy
 //@   ensures typeis(result, "*snappy.writer") && !isnil(deref(result, "writer")) && deref(result, "writer").xerialWriter != nil
 //@   ensures deref(result, "writer").xerialWriter.framed == (c.Framing == Framed)
 //@   ensures deref(result, "writer").xerialWriter.writer == w && deref(result, "writer").xerialWriter.nbytes == 0
+
+//@ property C16 C10
+
+// Close gives the xerial reader/writer back to the pool exactly once: when it returns, the closed wrapper no longer
+// references the pooled object, so a second Close cannot put the same object into the pool again (two live writers would
+// then share one xerialWriter), and a closed wrapper cannot touch an object that now belongs to somebody else.
+//@ func (*reader).Close
+//@   option noframe
+//@   modifies heap
+//@   ensures r.xerialReader == nil
+//@ func (*xerialWriter).Flush
+//@   trusted writes the buffered block (framed or not) to the underlying writer: touches the xerialWriter's own buffers and counters and whatever the destination writer touches, never the wrapper that embeds the xerialWriter
+//@   modifies x.input, x.output, x.nbytes, elems(x.header), region($wn)
+//@ func (*writer).Close
+//@   option noframe
+//@   modifies heap
+//@   ensures w.xerialWriter == nil
